@@ -22,7 +22,7 @@ def build():
     for t in ['Roas', 'AspaObjects', 'BgpSecCertificates', 'ChildCertificates', 'RoaUpdates', 'AspaObjectsUpdates',
               'ChildCertificateUpdates', 'BgpSecCertificateUpdates']:
         U.opaque(t, 'Clone', clone_spec=False)
-    for t in ['Routes', 'AspaDefinitions', 'BgpSecDefinitions', 'Config', 'KrillSigner', 'IssuanceTimingConfig', 'SignerError', 'ResourceSet', 'KeyInfo']:
+    for t in ['Routes', 'AspaDefinitions', 'BgpSecDefinitions', 'Config', 'KrillSigner', 'IssuanceTimingConfig', 'SignerError', 'ResourceSet', 'KeyInfo', 'ResourceClassEntitlements']:
         U.opaque(t, '')
     prelude.time(U)
     U.outside('''
@@ -38,6 +38,7 @@ impl KrillSigner {
 impl KeyInfo { pub fn key_identifier(&self) -> KeyIdentifier { unimplemented!() } }
 impl Error { pub fn signer(_e: SignerError) -> Self { unimplemented!() } }
 impl RevocationRequest { pub fn new(_c: ResourceClassName, _k: KeyIdentifier) -> Self { unimplemented!() } }
+impl ResourceClassEntitlements { pub fn resource_set(&self) -> &ResourceSet { unimplemented!() } pub fn not_after(&self) -> Time { unimplemented!() } }
 impl Roas { pub fn create_renewal(&self, _f: bool, _k: &CertifiedKey, _t: &IssuanceTimingConfig, _s: &KrillSigner) -> KrillResult<RoaUpdates> { unimplemented!() } }
 impl AspaObjects { pub fn create_renewal(&self, _k: &CertifiedKey, _r: Option<Time>, _t: &IssuanceTimingConfig, _s: &KrillSigner) -> KrillResult<AspaObjectsUpdates> { unimplemented!() } }
 impl BgpSecCertificates { pub fn create_renewal(&self, _k: &CertifiedKey, _r: Option<Time>, _t: &IssuanceTimingConfig, _s: &KrillSigner) -> KrillResult<BgpSecCertificateUpdates> { unimplemented!() } }
@@ -114,6 +115,17 @@ pub open spec fn objects_under(evs: Seq<CertAuthEvent>, from: int, k: CertifiedK
         _ => true,
     }
 }
+/// `this key's certificate no longer matches the entitlement` (CertifiedKey::wants_update: unit c02_wants)
+pub uninterp spec fn wants(k: CertifiedKey, e: ResourceClassEntitlements) -> bool;
+pub uninterp spec fn ent_res(e: ResourceClassEntitlements) -> ResourceSet;
+pub uninterp spec fn ent_na(e: ResourceClassEntitlements) -> Time;
+pub assume_specification [ResourceClassEntitlements::resource_set] (e: &ResourceClassEntitlements) -> (r: &ResourceSet) ensures *r == ent_res(*e);
+pub assume_specification [ResourceClassEntitlements::not_after] (e: &ResourceClassEntitlements) -> (r: Time) ensures r == ent_na(*e);
+pub uninterp spec fn wants_raw(k: CertifiedKey, res: ResourceSet, na: Time) -> bool;
+pub open spec fn requested(reqs: Seq<(&RepoInfo, KeyIdentifier)>, k: KeyIdentifier) -> bool { exists |i: int| 0 <= i < reqs.len() && (#[trigger] reqs[i]).1 == k }
+/// what the (separately contracted: units c02_rcvd, c01_*) handlers for a certificate of the current / the first key return
+pub uninterp spec fn evs_current(rc: ResourceClass, key: CertifiedKey, c: ReceivedCert) -> Seq<CertAuthEvent>;
+pub uninterp spec fn evs_pending(rc: ResourceClass, c: ReceivedCert) -> Seq<CertAuthEvent>;
 /// events that do not touch the key state
 pub open spec fn key_neutral(ev: CertAuthEvent) -> bool {
     ev is CertificateRequested || ev is RoasUpdated || ev is AspaObjectsUpdated || ev is ChildCertificatesUpdated || ev is BgpSecCertificatesUpdated
@@ -133,6 +145,9 @@ pub open spec fn key_neutral(ev: CertAuthEvent) -> bool {
         U.fn(KEYS, 'CertifiedKey', 'set_incoming_cert', ensures=[
             ('clears_request', 'final(self).request is None'),
             ('sets_cert', 'final(self).incoming_cert == cert, final(self).key_id == old(self).key_id')]),
+    ])
+    U.impl('impl CertifiedKey', [
+        U.fn(KEYS, 'CertifiedKey', 'wants_update', external_body=True, ensures=[('assumed', 'r == wants_raw(*self, *new_resources, new_not_after)')]),
     ])
     U.impl('impl PendingKey', [
         U.fn(KEYS, 'PendingKey', 'new', ensures=[('fields', 'r.key_id == key_id, r.request is None')]),
@@ -199,6 +214,22 @@ pub open spec fn key_neutral(ev: CertAuthEvent) -> bool {
             ('all_objects_reissued_under_the_new_key', 'r == Ok::<bool, Error>(true) ==> objects_under(final(events)@, old(events)@.len() as int, self.key_state->RollNew_0)'),
             ('no_event_when_not_activating', 'r == Ok::<bool, Error>(false) ==> final(events)@ == old(events)@'),
         ]),
+        U.fn(RC, 'ResourceClass', 'process_rcvd_cert_current', external_body=True, ensures=[('assumed', 'r is Ok ==> r->Ok_0@ == evs_current(*self, *current_key, rcvd_cert)')]),
+        U.fn(RC, 'ResourceClass', 'process_rcvd_cert_pending', external_body=True, ensures=[('assumed', 'r is Ok ==> r->Ok_0@ == evs_pending(*self, rcvd_cert)')]),
+        # a certificate for the key that is being rolled in never produces objects: the staged key publishes only its manifest and CRL
+        U.fn(RC, 'ResourceClass', 'process_received_cert', ensures=[
+            ('staged_key_certificate_only_recorded', '''r is Ok && self.key_state is RollNew && ki_of(rcvd_cert) == self.key_state->RollNew_0.key_id ==>
+                    r->Ok_0@ == seq![CertAuthEvent::CertificateReceived { resource_class_name: self.name, ki: ki_of(rcvd_cert), rcvd_cert }]'''),
+            ('pending_roll_key_becomes_new_key', '''r is Ok && self.key_state is RollPending && ki_of(rcvd_cert) == self.key_state->RollPending_0.key_id ==>
+                    r->Ok_0@.len() == 1 && r->Ok_0@[0] is KeyPendingToNew && ev_enabled(r->Ok_0@[0], self.key_state)
+                    && r->Ok_0@[0]->KeyPendingToNew_new_key.incoming_cert == rcvd_cert'''),
+            ('otherwise_handled_for_the_current_key', '''r is Ok && !(self.key_state is Pending)
+                    && !(self.key_state is RollNew && ki_of(rcvd_cert) == self.key_state->RollNew_0.key_id)
+                    && !(self.key_state is RollPending && ki_of(rcvd_cert) == self.key_state->RollPending_0.key_id) ==>
+                    r->Ok_0@ == evs_current(*self, (match self.key_state { KeyState::Active(c) => c, KeyState::RollPending(_, c) => c, KeyState::RollNew(_, c) => c,
+                        KeyState::RollOld(c, _) => c, KeyState::Pending(_) => arbitrary() }), rcvd_cert)'''),
+            ('first_certificate_only_for_the_pending_key', 'r is Ok && self.key_state is Pending ==> ki_of(rcvd_cert) == self.key_state->Pending_0.key_id && r->Ok_0@ == evs_pending(*self, rcvd_cert)'),
+        ]),
         U.fn(RC, 'ResourceClass', 'key_roll_possible', ensures=[('iff_active', 'r == (phase(self.key_state) is Active)')]),
         U.fn(RC, 'ResourceClass', 'append_keyroll_initiate',
              ensures=[
@@ -225,6 +256,34 @@ pub open spec fn key_neutral(ev: CertAuthEvent) -> bool {
             ('one_enabled_event', '''r is Ok ==> final(events)@ == old(events)@.push(final(events)@.last())
                 && final(events)@.last() is KeyRollActivated && ev_enabled(final(events)@.last(), *self)'''),
             ('err_no_event', 'r is Err ==> final(events)@ == old(events)@')]),
+        # append_entitlement_events ends in a loop over an iterator adapter (outside the verifier); its selection of the keys to
+        # request certificates for -- one `match` statement, lifted verbatim (R17) -- is verified: every pending key and every
+        # certified key (new or current) whose certificate no longer matches the entitlement gets a request
+        U.stmt_fn(KEYS, 'KeyState', 'append_entitlement_events', 1, 'vx_keys_for_requests',
+                  "<'a>(&'a self, handle: &CaHandle, rcn: ResourceClassName, entitlement: &ResourceClassEntitlements, base_repo: &'a RepoInfo, keys_for_requests0: Vec<(&'a RepoInfo, KeyIdentifier)>) -> (r: Vec<(&'a RepoInfo, KeyIdentifier)>)",
+                  ghost_before='let mut keys_for_requests = keys_for_requests0;\n', tail='keys_for_requests',
+                  ghost_after='''proof {
+        let q = keys_for_requests@; let er = ent_res(*entitlement); let en = ent_na(*entitlement);
+        if self is Pending { /*@hint_witness_1*/ assert(q[0].1 == self->Pending_0.key_id); }
+        if self is Active { if wants_raw(self->Active_0, er, en) { /*@hint_witness_2*/ assert(q[0].1 == self->Active_0.key_id); } }
+        if self is RollPending { /*@hint_witness_3*/ assert(q[0].1 == self->RollPending_0.key_id); if wants_raw(self->RollPending_1, er, en) { /*@hint_witness_4*/ assert(q[1].1 == self->RollPending_1.key_id); } }
+        if self is RollNew {
+            if wants_raw(self->RollNew_0, er, en) { /*@hint_witness_5*/ assert(q[0].1 == self->RollNew_0.key_id); if wants_raw(self->RollNew_1, er, en) { /*@hint_witness_6*/ assert(q[1].1 == self->RollNew_1.key_id); } }
+            else if wants_raw(self->RollNew_1, er, en) { /*@hint_witness_7*/ assert(q[0].1 == self->RollNew_1.key_id); }
+        }
+        if self is RollOld { if wants_raw(self->RollOld_0, er, en) { /*@hint_witness_8*/ assert(q[0].1 == self->RollOld_0.key_id); } }
+    }
+''',
+                  requires=[('starts_empty', 'keys_for_requests0@.len() == 0')],
+                  ensures=[
+                      ('pending_key_always_requests', '''(self is Pending ==> requested(r@, self->Pending_0.key_id)) && (self is RollPending ==> requested(r@, self->RollPending_0.key_id))'''),
+                      ('staged_key_follows_the_entitlement', 'self is RollNew && wants_raw(self->RollNew_0, ent_res(*entitlement), ent_na(*entitlement)) ==> requested(r@, self->RollNew_0.key_id)'),
+                      ('current_key_follows_the_entitlement', '''(self is Active && wants_raw(self->Active_0, ent_res(*entitlement), ent_na(*entitlement)) ==> requested(r@, self->Active_0.key_id))
+                            && (self is RollPending && wants_raw(self->RollPending_1, ent_res(*entitlement), ent_na(*entitlement)) ==> requested(r@, self->RollPending_1.key_id))
+                            && (self is RollNew && wants_raw(self->RollNew_1, ent_res(*entitlement), ent_na(*entitlement)) ==> requested(r@, self->RollNew_1.key_id))
+                            && (self is RollOld && wants_raw(self->RollOld_0, ent_res(*entitlement), ent_na(*entitlement)) ==> requested(r@, self->RollOld_0.key_id))'''),
+                      ('no_request_without_cause', '''self is Active && !wants_raw(self->Active_0, ent_res(*entitlement), ent_na(*entitlement)) ==> r@.len() == 0'''),
+                  ]),
         U.fn(KEYS, 'KeyState', 'new_key', ensures=[('iff_roll_new', 'r is Some <==> phase(*self) is RollNew'), ('is_new', 'r is Some ==> *r->Some_0 == self->RollNew_0')]),
         U.fn(KEYS, 'KeyState', 'create_issuance_req', external_body=True),
         U.fn(KEYS, 'KeyState', 'revoke_key'),
